@@ -217,26 +217,77 @@ def rule_rd_partition(cx, rep, port='py'):
     if len(searches) != 1 or searches[0].func.attr != 'search':
         rep.violated('separator search', fd, 'the first line separator is not located with newline_rgx.search (`{}`)'.format(node_text(searches[0]) if searches else 'none'))
         return
-    rets = [r for r in walk_no_nested(fd) if isinstance(r, ast.Return)]
-    none_ret = [r for r in rets if isinstance(r.value, ast.Tuple) and len(r.value.elts) == 3 and is_none(r.value.elts[0]) and is_none(r.value.elts[1]) and is_name(r.value.elts[2], data)]
-    rep.decide(len(none_ret) == 1, 'no separator', none_ret[0] if none_ret else fd, 'without a separator the data is returned unconsumed', 'without a separator the function does not return (None, None, data): buffered text is lost')
-    # slices
-    slices = {}
-    for n in walk_no_nested(fd):
-        if isinstance(n, ast.Assign) and isinstance(n.value, ast.Subscript) and is_name(n.value.value, data) and isinstance(n.value.slice, ast.Slice):
-            sl = n.value.slice
-            slices[dotted(n.targets[0])] = (node_text(sl.lower) if sl.lower is not None else None, node_text(sl.upper) if sl.upper is not None else None, n)
-    span = [n for n in walk_no_nested(fd) if isinstance(n, ast.Assign) and isinstance(n.targets[0], ast.Tuple) and isinstance(n.value, ast.Call) and isinstance(n.value.func, ast.Attribute) and n.value.func.attr == 'span']
-    if len(span) != 1:
-        rep.undecided('partition', fd, 'match span unpacking not recognised')
+    # decided on the path summaries (locals, destructuring of span() and start()/end() are all substituted away)
+    from .. import pathsem
+    ps = pathsem.paths(fd)
+    if ps is None:
+        rep.undecided('partition', fd, 'extract_line_from_data is not summarisable as paths')
         return
-    s0, s1 = [dotted(e) for e in span[0].targets[0].elts]
-    full = [r for r in rets if r not in none_ret]
-    ok = len(full) == 1 and isinstance(full[0].value, ast.Tuple) and len(full[0].value.elts) == 3
-    if ok:
-        a, b, c_ = full[0].value.elts
-        ok = slices.get(dotted(a), (0, 0))[:2] == (None, s0) and slices.get(dotted(c_), (0, 0))[:2] == (s1, None) and isinstance(b, ast.Call) and isinstance(b.func, ast.Attribute) and b.func.attr == 'group'
-    rep.decide(ok, 'partition', full[0] if full else fd, 'returns (data[:start], separator, data[end:])', 'the (before, separator, after) partition is not data[:match_start], match, data[match_end:]: characters are lost or duplicated')
+    srch = searches[0]
+
+    def is_match(e):
+        return isinstance(e, ast.Call) and ast.dump(e) == ast.dump(srch)
+
+    def bound(e):
+        """'start' / 'end' of the match, None otherwise"""
+        if isinstance(e, ast.Call) and isinstance(e.func, ast.Attribute) and e.func.attr in ('start', 'end') and is_match(e.func.value) and (not e.args or const_value_(e.args[0]) == 0):
+            return e.func.attr
+        if isinstance(e, ast.Subscript) and isinstance(e.value, ast.Call) and isinstance(e.value.func, ast.Attribute) and e.value.func.attr == 'span' and is_match(e.value.func.value) and const_value_(e.slice) in (0, 1):
+            return 'start' if const_value_(e.slice) == 0 else 'end'
+        return None
+
+    def part(e):
+        """which part of `data` an expression denotes: 'before' / 'sep' / 'after'"""
+        if isinstance(e, ast.Subscript) and is_name(e.value, data) and isinstance(e.slice, ast.Slice) and e.slice.step is None:
+            lo, hi = e.slice.lower, e.slice.upper
+            lo_b = None if lo is None else bound(lo)
+            hi_b = None if hi is None else bound(hi)
+            if (lo is None or const_value_(lo) == 0) and hi_b == 'start':
+                return 'before'
+            if lo_b == 'end' and hi is None:
+                return 'after'
+            if lo_b == 'start' and hi_b == 'end':
+                return 'sep'
+            return 'other'
+        if isinstance(e, ast.Call) and isinstance(e.func, ast.Attribute) and e.func.attr == 'group' and is_match(e.func.value) and (not e.args or const_value_(e.args[0]) == 0):
+            return 'sep'
+        if isinstance(e, ast.Subscript) and is_match(e.value) and const_value_(e.slice) == 0:
+            return 'sep'
+        return None
+    n_none = n_full = 0
+    for q in ps:
+        if q.kind != 'return' or q.value is None:
+            continue
+        found = None
+        for atom, pol in pathsem.atoms(q.conds):
+            if isinstance(atom, ast.Compare) and len(atom.ops) == 1 and is_match(atom.left) and is_none(atom.comparators[0]):
+                found = (isinstance(atom.ops[0], (ast.IsNot, ast.NotEq))) == pol
+            elif is_match(atom):
+                found = pol
+        elts = list(q.value.elts) if isinstance(q.value, (ast.Tuple, ast.List)) else None
+        if found is None or elts is None or len(elts) != 3:
+            rep.undecided('partition', q.node, 'a path of extract_line_from_data is not classified by "a separator was found" / does not return a triple')
+            return
+        if not found:
+            n_none += 1
+            ok0 = is_none(elts[0]) and is_none(elts[1]) and is_name(elts[2], data)
+            if not ok0:
+                rep.violated('no separator', q.node, 'without a separator the function does not return (None, None, data): buffered text is lost')
+                return
+        else:
+            n_full += 1
+            kinds = [part(e_) for e_ in elts]
+            if None in kinds:
+                rep.undecided('partition', q.node, 'component `{}` of the returned triple not recognised'.format(node_text(elts[kinds.index(None)], 50)))
+                return
+            if kinds != ['before', 'sep', 'after']:
+                rep.violated('partition', q.node, 'the (before, separator, after) partition is not data[:match_start], match, data[match_end:] (got {}): characters are lost or duplicated'.format(kinds))
+                return
+    if n_none and n_full:
+        rep.holds('no separator', fd, 'without a separator the data is returned unconsumed')
+        rep.holds('partition', fd, 'returns (data[:start], separator, data[end:])')
+    else:
+        rep.undecided('partition', fd, 'paths with and without a separator not both found')
 
 
 def rule_rd_crla(cx, rep, port='py'):
@@ -788,17 +839,36 @@ def rule_rd_rfc(cx, rep, port):
             after = [s_ for s_, lab in ln[0].succ if lab in ('F', 'exhausted', 'done', '')] if ln else []
             ok_eof = bool(ln) and g.exists_path(ln[0], is_ret, avoid=lambda n_: n_ is not ln[0] and cfgmod.node_contains(n_, _is_read), edge_ok=lambda a, b, lab: not (a is ln[0] and b in [x for x, l2 in ln[0].succ if any(x.ast is st_ for st_ in sentinel_loops[0].body)]))
             rep.decide(ok_eof, 'unfinished record', sentinel_loops[0], 'an unfinished record at end of input is still returned', 'an unfinished multi-line record at end of input is dropped')
+        elif eofret:
+            rep.decide(ends_record(eofret[0]), 'unfinished record', eofret[0], 'an unfinished record at end of input is still returned', 'an unfinished multi-line record at end of input is dropped')
         else:
-            rep.decide(bool(eofret) and ends_record(eofret[0]), 'unfinished record', eofret[0] if eofret else fd, 'an unfinished record at end of input is still returned', 'an unfinished multi-line record at end of input is dropped')
+            # end of input established by a loop condition (`while row is not None:`) or any other test of the continuation line
+            # against None: from the "is None" side a record is returned without another read
+            cont_reads = [n_ for n_ in g.nodes if n_.kind == 'stmt' and isinstance(n_.ast, ast.Assign) and cfgmod.node_contains(n_, _is_read) and dotted(n_.ast.targets[0]) != dotted(fd.body[0].targets[0] if isinstance(fd.body[0], ast.Assign) else None)]
+            cvars = {dotted(n_.ast.targets[0]) for n_ in cont_reads}
+            tests = []
+            for n_ in g.nodes:
+                if n_.kind == 'test':
+                    for t_ in ([n_.ast] + (list(n_.ast.values) if isinstance(n_.ast, ast.BoolOp) else [])):
+                        if isinstance(t_, ast.Compare) and len(t_.ops) == 1 and is_none(t_.comparators[0]) and dotted(t_.left) in cvars and isinstance(t_.ops[0], (ast.Is, ast.IsNot, ast.Eq, ast.NotEq)):
+                            tests.append((n_, 'T' if isinstance(t_.ops[0], (ast.Is, ast.Eq)) else 'F'))
+            if not tests:
+                rep.undecided('unfinished record', fd, 'end-of-input test of the continuation line not recognised')
+            else:
+                ok_eof = True
+                for n_, side in tests:
+                    succ = [s_ for s_, lab in n_.succ if lab == side]
+                    ok_eof = ok_eof and bool(succ) and all((is_ret(s_) or g.exists_path(s_, is_ret, avoid=reads)) and not (reads(s_) or g.exists_path(s_, reads, avoid=is_ret)) for s_ in succ)
+                rep.decide(ok_eof, 'unfinished record', tests[0][0].ast, 'an unfinished record at end of input is still returned', 'an unfinished multi-line record at end of input is dropped')
         apps = [c for c in walk_no_nested(fd) if isinstance(c, ast.Call) and isinstance(c.func, ast.Attribute) and c.func.attr == 'append']
         rep.decide(len(apps) == 1, 'line collection', apps[0] if apps else fd, 'every continuation line is collected', 'continuation lines are not all collected')
     else:
         fd = p.func('csv_utils', 'MultilineRecordAggregator.add_line')
         full = [n for n in walk_no_nested(fd) if isinstance(n, ast.Assign) and dotted(n.targets[0]) == 'self.has_full_record']
-        if len(full) != 1:
+        if not full:
             rep.undecided('quote parity', fd, 'has_full_record definition not found')
             return
-        txt = node_text(full[0].value, 400)
+        txt = ' / '.join(node_text(f_.value, 200) for f_ in full)
         # truth table of the completion test over (U = odd number of quotes in this line, F = this is the first line of the record);
         # lengths of the line buffer are interpreted at the place where they are read: before the push 0 / >= 1, after it 1 / >= 2
         pushes = [c for c in walk_no_nested(fd) if isinstance(c, ast.Call) and isinstance(c.func, ast.Attribute) and c.func.attr in ('push', 'append') and dotted(c.func.value) == 'self.rfc_line_buffer']
@@ -832,7 +902,36 @@ def rule_rd_rfc(cx, rep, port):
                 op = e.ops[0]
                 return {ast.Eq: n_ == k_, ast.NotEq: n_ != k_, ast.Gt: n_ > k_, ast.GtE: n_ >= k_, ast.Lt: n_ < k_, ast.LtE: n_ <= k_}.get(type(op))
             return None
-        rows = [(U, F, ev(full[0].value, U, F, (full[0].lineno, full[0].col_offset))) for U in (True, False) for F in (True, False)]
+        if len(full) == 1:
+            rows = [(U, F, ev(full[0].value, U, F, (full[0].lineno, full[0].col_offset))) for U in (True, False) for F in (True, False)]
+        else:
+            # several assignments under conditions: the value is that of the assignment whose guards hold in the valuation
+            def guards_of(n_):
+                gs = []
+                ch, q_ = n_, getattr(n_, 'parent', None)
+                while q_ is not None and q_ is not fd:
+                    if isinstance(q_, ast.If):
+                        gs.append((q_.test, ch in q_.body))
+                    elif isinstance(q_, (ast.For, ast.While, ast.Try)):
+                        return None
+                    ch, q_ = q_, getattr(q_, 'parent', None)
+                return gs
+            rows = []
+            for U in (True, False):
+                for F in (True, False):
+                    vals = []
+                    for f_ in full:
+                        gs = guards_of(f_)
+                        if gs is None:
+                            vals = [None]
+                            break
+                        gv = [(ev(t_, U, F, (t_.lineno, t_.col_offset)), pol) for t_, pol in gs]
+                        if any(v_ is None for v_, _ in gv):
+                            vals = [None]
+                            break
+                        if all(v_ == pol for v_, pol in gv):
+                            vals.append(ev(f_.value, U, F, (f_.lineno, f_.col_offset)))
+                    rows.append((U, F, vals[-1] if vals else None))
         if any(r_[2] is None for r_ in rows):
             rep.undecided('quote parity', full[0], 'record completion test `{}` not evaluable'.format(txt))
         else:
@@ -842,7 +941,7 @@ def rule_rd_rfc(cx, rep, port):
         okp = len(par) == 1 and '% 2 == 1' in node_text(par[0].value)
         rep.decide(okp, 'parity computation', par[0] if par else fd, 'odd number of double quotes', 'quote parity is not computed as count % 2 == 1')
         push = [c for c in walk_no_nested(fd) if isinstance(c, ast.Call) and isinstance(c.func, ast.Attribute) and c.func.attr == 'push']
-        rep.decide(len(push) == 1 and push[0].lineno < full[0].lineno, 'line collection', push[0] if push else fd, 'the line is collected before completeness is evaluated', 'the line is not collected before the completeness test')
+        rep.decide(len(push) == 1 and all(push[0].lineno < f_.lineno for f_ in full), 'line collection', push[0] if push else fd, 'the line is collected before completeness is evaluated', 'the line is not collected before the completeness test')
         it = p.func('rbql_csv', 'CSVRecordIterator.process_partial_rfc_record_line')
         gl = [c for c in ast.walk(it) if isinstance(c, ast.Call) and (call_name(c) or '').endswith('get_full_line')]
         rep.decide(gl and all(isinstance(c.args[0], ast.Constant) and c.args[0].value == '\n' for c in gl), 'line joining', gl[0] if gl else it, 'physical lines are joined with LF', 'physical lines of a multi-line record are not joined with LF')
